@@ -62,6 +62,20 @@ theorem b1t6_decode_invalid_length (pre : List UInt8) (r : List Int)
     decode (encode pre ++ r) = (pre, some .invalidLength) :=
   Proofs.B1T6.decode_invalid_length pre r h0 h6
 
+/-- (e) the same order for `DecodeTrytes` (which returns no bytes on error, only the error): the first tryte pair that
+is not a code word gives ErrInvalidTrits whatever follows — even an odd length —, and otherwise an odd length gives
+ErrInvalidLength. -/
+theorem b1t6_decodeTrytes_invalid_group (pre : List UInt8) (c1 c2 : UInt8) (rest : List UInt8)
+    (hbad : decodeGroup (tryteValue c1) (tryteValue c2) = none) :
+    decodeTrytes (encodeToTrytes pre ++ c1 :: c2 :: rest) = .error .invalidTrits := by
+  unfold decodeTrytes
+  rw [Proofs.B1T6.decodeTrytesAux_encode_append, Proofs.B1T6.decodeTrytesAux_cons2, hbad]
+
+theorem b1t6_decodeTrytes_invalid_length (pre : List UInt8) (c : UInt8) :
+    decodeTrytes (encodeToTrytes pre ++ [c]) = .error .invalidLength := by
+  unfold decodeTrytes
+  rw [Proofs.B1T6.decodeTrytesAux_encode_append, Proofs.B1T6.decodeTrytesAux_one]
+
 /-- exactly 256 of the 729 groups are code words (so 473 are rejected). -/
 theorem b1t6_codeword_count :
     ((Proofs.B1T6.allGroups).filter (fun g => (decode g).2 == none)).length = 256 := by
